@@ -178,10 +178,12 @@ def f_backward(case):
     if case.get('compile'):
         circ.compile()
     nmeas = sum(len(g['qubits']) for g in prog if g['kind'] == 'measure')
-    S, _ = C.dec_state('np', {'rows': case['state']['rows'], 'r': 0})
-    rng.seed_all(case['seed'])
-    circ.forward(S)
-    own = list(circ.measure_result)
+    # the circuit may have been run before (its record accumulates): backward() without an explicit record refers to the latest run
+    for rep in range(case.get('reps', 1)):
+        S, _ = C.dec_state('np', {'rows': case['state']['rows'], 'r': 0})
+        rng.seed_all(case['seed'] + 17 * rep)
+        circ.forward(S)
+    own = list(circ.measure_result)[len(circ.measure_result) - nmeas:] if nmeas else []
     mode = case['mode']
     sig_case = {'rows': case['sigma']['rows'], 'r': 0}
     if mode == 'same-state':          # sigma = post-measurement state: its own record is certainly possible
@@ -237,7 +239,7 @@ def f_backward(case):
         return {'nt': True, 'labels': ['impossible-record-rejected', mode]}
     check(not impossible, 'backward accepted the impossible record %s' % record, 'backward-impossible-accepted')
     C.same_state_denotation(Sig, cur, 0, 'state after Circuit.backward (mode %s, record %s)' % (mode, record))
-    return {'nt': nmeas > 0, 'labels': ['N=%d' % N, mode, 'meas=%d' % min(nmeas, 5)]}
+    return {'nt': nmeas > 0, 'labels': ['N=%d' % N, mode, 'meas=%d' % min(nmeas, 5), 'runs=%d' % case.get('reps', 1)]}
 
 
 def st_backward(hiN):
@@ -245,7 +247,7 @@ def st_backward(hiN):
         {'N': st.just(N), 'prog': st_mprog(N, 8), 'state': st.fixed_dictionaries({'rows': gen.st_clifford_rows(N)}),
          'sigma': st.fixed_dictionaries({'rows': gen.st_clifford_rows(N)}), 'seed': gen.st_seed(),
          'mode': st.sampled_from(['own', 'same-state', 'same-state', 'explicit', 'flipped', 'wrong-length']),
-         'bits': st.lists(st.booleans(), min_size=1, max_size=6), 'compile': st.booleans()}))
+         'bits': st.lists(st.booleans(), min_size=1, max_size=6), 'compile': st.booleans(), 'reps': st.sampled_from([1, 2, 3])}))
 
 
 FACETS = [
